@@ -283,6 +283,16 @@ class UTPM(Ring, RawAlgorithmsMixIn):
         # of y[sl] itself (y[sl] = y[sl]), in which case xbar is ybar[sl]
         tmp = ybar[sl].copy()
         ybar[sl].data[...] = 0.
+        if isinstance(xbar, cls):
+            # x may have been broadcast against y[sl]: sum the adjoint over the broadcast axes
+            tmp_data = tmp.data
+            x_shp = xbar.data.shape
+            while tmp_data.ndim > len(x_shp):
+                tmp_data = tmp_data.sum(axis=2)
+            for ax in range(2, len(x_shp)):
+                if x_shp[ax] == 1 and tmp_data.shape[ax] != 1:
+                    tmp_data = tmp_data.sum(axis=ax, keepdims=True)
+            tmp = cls(tmp_data)
         xbar += tmp
         # print 'funcargs=',funcargs
         # print y[funcargs[0]]
